@@ -73,6 +73,10 @@ def run_driver(args):
             out[prof] = r.stdout.strip()[-600:]
             if r.returncode == 1 and "REPRODUCED:" in r.stdout:
                 reproduced = True
+            elif r.returncode not in (0, 1, 2):
+                # the real code aborted / crashed on this input (allocation failure, abort from a std unsafe-precondition check, signal)
+                out[prof] = ("REPRODUCED: process terminated abnormally (exit status %d)\n" % r.returncode) + out[prof]
+                reproduced = True
         except subprocess.TimeoutExpired:
             out[prof] = "timeout"
     out["reproduced"] = reproduced
